@@ -234,11 +234,45 @@ struct RC {
     pts: Contour,
     flipped: bool,
 }
+/// does the glyph, or anything it transitively refers to, have a source of its own at the intermediate location?
+fn has_intermediate(src: &Src, name: &str, fuel: usize) -> bool {
+    if fuel == 0 {
+        return false;
+    }
+    match src.g(name) {
+        None => false,
+        Some(g) => g.sp.is_some() || g.bases.iter().any(|b| has_intermediate(src, b, fuel - 1)),
+    }
+}
 fn resolve_ref(src: &Src, name: &str, k: usize, t: &[f64; 6], flipped: bool, out: &mut Vec<RC>, fuel: usize) {
     if fuel == 0 {
         return;
     }
     let Some(g) = src.g(name) else { return };
+    let nm = src.pos.len();
+    if k >= nm && !has_intermediate(src, name, 12) {
+        // Neither this glyph nor anything below it has a source here: in every build its outline at this
+        // location is what the variation model makes of its outlines at the locations where sources exist
+        // (one axis: linear between the two neighbouring masters).  For components whose 2x2 is the same at
+        // all masters that equals resolving the interpolated glyphs; for a 2x2 that differs between masters
+        // (such a glyph is stored as a simple glyph by every option subset) only this is what is drawn.
+        let p = src.sparse.unwrap();
+        let mut own: Vec<(f64, usize)> = src.pos.iter().cloned().zip(0..nm).collect();
+        own.sort_by(|a, b| a.0.partial_cmp(&b.0).unwrap());
+        let hi = own.iter().position(|x| x.0 > p).unwrap();
+        let (a, b) = (own[hi - 1], own[hi]);
+        let w = (p - a.0) / (b.0 - a.0);
+        let (mut ra, mut rb) = (Vec::new(), Vec::new());
+        resolve_ref(src, name, a.1, &IDENT, false, &mut ra, fuel);
+        resolve_ref(src, name, b.1, &IDENT, false, &mut rb, fuel);
+        for (ca, cb) in ra.iter().zip(rb.iter()) {
+            out.push(RC {
+                pts: ca.pts.iter().zip(cb.pts.iter()).map(|(q, r)| { let (x, y) = apply(t, lerp(q.x, r.x, w), lerp(q.y, r.y, w)); P { x, y, on: q.on } }).collect(),
+                flipped: flipped || ca.flipped,
+            });
+        }
+        return;
+    }
     let m = &src.inst(g, k);
     for c in &m.contours {
         out.push(RC {
@@ -477,6 +511,16 @@ fn gen_src(rng: &mut Rng, id: usize) -> Src {
                 let mid = probe.inst(&glyphs[i], nm);
                 let contours = mid.contours.iter().map(|c| vary_contour(rng, c, 120).iter().map(|q| P { x: q.x.round(), y: q.y.round(), on: q.on }).collect()).collect();
                 glyphs[i].sp = Some(GM { adv: (mid.adv + rng.range(-60, 60) as f64).round(), contours, xf: vec![] });
+            }
+        }
+    }
+    if sparse.is_some() {
+        // A non-export glyph whose 2x2 differs between masters, inlined under a glyph that reaches the intermediate
+        // location, has no single meaning there (interpolation of products against product of interpolations, a
+        // second-order difference the options need not agree on): keep such glyphs exported in this class.
+        for g in glyphs.iter_mut() {
+            if (0..g.bases.len()).any(|j| varies(g, j)) {
+                g.export = true;
             }
         }
     }
@@ -1115,6 +1159,8 @@ fn run_source(src: &Src, with_model: bool) -> Vec<Value> {
     // per export mode: (option subset, source locations of the IR glyphs that have no components)
     let mut loc_runs: Vec<Vec<(usize, String)>> = vec![Vec::new(); 2];
     let mut f1_seen: std::collections::HashSet<(String, String)> = Default::default();
+    // advance of the first build (no option set) per (all exported, glyph, location)
+    let mut first_adv: HashMap<(bool, String, usize), f64> = HashMap::new();
     // drawn contour counts per (all exported, option subset, glyph, master)
     let mut drawn_counts: HashMap<(bool, usize, String, usize), usize> = HashMap::new();
     for all_export in [false, true] {
@@ -1171,11 +1217,33 @@ fn run_source(src: &Src, with_model: bool) -> Vec<Value> {
                     drawn_counts.insert((all_export, mask, g.name.clone(), k), d.contours.len());
                     let own_source = k < nm || g.sp.is_some();
                     let k_name = if k < nm { format!("master {k} (wght={})", locs[k]) } else { format!("intermediate location wght={} ({})", locs[k], if own_source { "own source" } else { "no own source: interpolated" }) };
-                    // advance: ot_round of the source advance (interpolated between the glyph's own sources
-                    // where it has none: deltas are rounded, allow one unit there)
+                    // Advance against the source.  At the default location hmtx holds ot_round(advance) exactly.
+                    // Elsewhere the font gives default + sum of scalar_i * round(delta_i): on one axis at most two
+                    // regions are active, each rounded delta is off by at most 1/2 and the rasteriser rounds (1/2),
+                    // so an own (integer) source advance is met within 1 unit (observed: masters 0/500/1000 plus an
+                    // intermediate source at 750, delta of the 750 region = x.5, drawn 751.5 -> 752 for 751, under
+                    // every option subset alike); where the glyph has no own source the reference is itself an
+                    // interpolated value rounded (another 1/2): within 2 units.
                     let src_adv = src.inst(g, k).adv;
                     let want = (src_adv + 0.5).floor();
-                    if (d.advance as f64 - want).abs() > if own_source { 1e-3 } else { 1.0 + 1e-3 } {
+                    let adv_tol = if k == 0 { 1e-3 } else if own_source { 1.0 + 1e-3 } else { 2.0 + 1e-3 };
+                    // ... and against the first build of the same source (the property proper): the same at the
+                    // default location, within one unit elsewhere (a decomposed glyph may carry an extra
+                    // interpolated source whose advance delta is rounded)
+                    match first_adv.get(&(all_export, g.name.clone(), k)) {
+                        None => {
+                            first_adv.insert((all_export, g.name.clone(), k), d.advance as f64);
+                        }
+                        Some(a0) => {
+                            if (d.advance as f64 - a0).abs() > if k == 0 { 1e-3 } else { 1.0 + 1e-3 } {
+                                let key = "advance-differs-between-option-subsets";
+                                if seen_keys.insert(format!("{key}:{}", g.name)) {
+                                    viol(&mut out, key, format!("source {} ({}) glyph '{}' {k_name}: advance {} with options [{variant}] but {} with no option set", src.id, src.kind, g.name, d.advance, a0), json!({"variant": variant, "options": variant, "glyph": g.name, "master": k, "location": k_name}));
+                                }
+                            }
+                        }
+                    }
+                    if (d.advance as f64 - want).abs() > adv_tol {
                         let key = "advance-differs-under-component-options";
                         if seen_keys.insert(format!("{key}:{}", g.name)) {
                             viol(&mut out, key, format!("source {} options [{variant}] glyph '{}' {k_name}: advance {} but the source says {}", src.id, g.name, d.advance, src_adv), json!({"variant": variant, "glyph": g.name, "master": k}));
